@@ -21,6 +21,7 @@ import PymaVerif.Proofs.Covariance2
 import PymaVerif.Proofs.Covariance3
 import PymaVerif.Proofs.CoreU
 import PymaVerif.Proofs.Covariance5
+import PymaVerif.Proofs.FormatsThm
 
 namespace Pyma
 namespace Props
@@ -74,6 +75,23 @@ theorem C13_pad (p : Problem K) (ts : List (List ℕ × Mat K)) (hp : p.Accepted
     (hH : (p.reparam (p.nparams + 1) ts).sr "H" = (padReindex p.nparams).pushS (p.sr "H")) :
     (p.reparam (p.nparams + 1) ts).sr "U'" = (padReindex p.nparams).pushS (p.sr "U'") :=
   Problem.C13_reindex p (p.nparams + 1) ts hp hq h2 (padReindex p.nparams) (padReindex_degree p.nparams) hkept hH
+
+/-- **C13 (keys)** monomial keys: the symbols are strictly sorted by name as strings and are exactly those that occur -/
+theorem C13_symbols_sorted (keys : List Formats.Monomial) :
+    (Formats.symbolsOf keys).Pairwise (· < ·) ∧ ∀ t, t ∈ Formats.symbolsOf keys ↔ ∃ m ∈ keys, ∃ e, (t, e) ∈ m :=
+  ⟨Formats.symbolsOf_sorted keys, Formats.mem_symbolsOf keys⟩
+
+/-- **C13 (keys)** the order of the dictionary entries and of the factors of a key does not matter -/
+theorem C13_keys_order_irrelevant {k₁ k₂ : List Formats.Monomial} (h : k₁.Perm k₂) : Formats.symbolsOf k₁ = Formats.symbolsOf k₂ :=
+  Formats.symbolsOf_perm h
+theorem C13_factor_order_irrelevant {m₁ m₂ : Formats.Monomial} (h : m₁.Perm m₂) (hn : (m₁.map (·.1)).Nodup) (s : String) :
+    Formats.power m₁ s = Formats.power m₂ s :=
+  Formats.power_perm h hn s
+
+/-- **C13 (keys)** a list `[h_0, h_1, …, h_k]`: zeroth order, then one first-order term per parameter -/
+theorem C13_list_keys (k : Nat) : (Formats.listKeys (k + 1)).head? = some (List.replicate k 0) ∧
+    ∀ i, i < k → (Formats.listKeys (k + 1))[i + 1]? = some (Formats.unitVec k i) :=
+  Formats.listKeys_spec k
 
 /-- a permutation of the parameters is such an equivalence -/
 theorem C13_permutation_preserves_degree {σ : Type} [DecidableEq σ] [Fintype σ] (e : σ ≃ σ) (m : σ →₀ ℕ) : (Finsupp.domCongr e m).degree = m.degree :=
